@@ -173,7 +173,7 @@ def classify_loop(F, fn, an, header, body, bounded_types):
 CONSUMERS = {"fold", "try_fold", "find", "find_map", "position", "rposition", "rfind", "any", "all", "count", "last", "nth", "for_each", "try_for_each",
              "max", "min", "max_by", "min_by", "max_by_key", "min_by_key", "sum", "product", "collect", "eq", "ne", "cmp", "partial_cmp", "lt", "le", "gt", "ge",
              "is_sorted", "unzip", "partition", "reduce"}
-FLOOR_LOOPLIKE = 16     # 9 natural loops + 7 iterator-consumer calls counted on the pinned tree
+FLOOR_LOOPLIKE = 12     # 16 loop-like sites (9 natural loops + 7 iterator-consumer calls) counted on the pinned tree; de-duplicating code legitimately removes a few, a vacuous enumerator finds none
 
 
 def _strip(an, x):
